@@ -8,7 +8,9 @@ THDR = "From Whawty Require Import Names Record Store StoreSpec StoreTrace Crash
 
 
 def traces(prop, seed, tier):
-    return tracedriver.gen_cases(prop, seed, tier)
+    # the undisturbed runs plus every single injected I/O error in add / update: the clean-up after a
+    # failure belongs to the discipline (nothing may be written, truncated or renamed in place)
+    return tracedriver.gen_cases(prop, seed, tier, want_faults=True, fault_ops_filter=("add", "update"))
 
 
 CONFIG = dict(
